@@ -22,6 +22,7 @@
 (*          (x1_eq_x2 found by torch.equal)   "eqn" n1 = n2, other points  *)
 (*          "gt" n1 > n2                 "lt" n1 < n2                      *)
 (*   diag   kernel(x1, x2, diag=True)    ldb   last_dim_is_batch=True      *)
+(*   geom   the GEOMETRY of the input points (see below)                   *)
 (* and is evaluated under every FORCING of the dispatch predicate:         *)
 (*   none | x1grad | x2grad | x12grad | trace                              *)
 (* i.e. EVERY subset of the two input tensors requiring a gradient         *)
@@ -59,22 +60,94 @@
 (* The DENOTATION of a cell (KCMeaning) does not mention the forcing: all  *)
 (* forcings must give the documented covariance function and the gradient  *)
 (* of THAT function with respect to every parameter.                       *)
+(*                                                                         *)
+(* GEOMETRY (geom).  The covariance functions are stationary and piecewise *)
+(* in r; WHERE the points lie selects the piece and the distance helper:   *)
+(*   "unit"  points drawn from [-1, 1]^d, all pairs of two different       *)
+(*           tensors at r > 0;                                             *)
+(*   "coin"  x1 and x2 are DIFFERENT tensors (torch.equal is false) that   *)
+(*           share rows: KCCoinPairs(s) lists the row pairs <<i, j>> with  *)
+(*           x1[i] = x2[j] bit for bit (r = 0 exactly) - one on a diagonal *)
+(*           position (the entry diag=True returns), one off the diagonal, *)
+(*           and KCCoinPartial(s): a pair that agrees in coordinate 1 only *)
+(*           (r = 0 in one of the per-dimension kernels of                 *)
+(*           last_dim_is_batch, r > 0 otherwise).  k = k(0) there and the  *)
+(*           documented function is stationary at r = 0 in every parameter *)
+(*           (and, nu > 1/2, in the inputs): every gradient must be        *)
+(*           FINITE and equal to the sub-gradient of the reference (0 from *)
+(*           the coincident entries) - on every call form, in particular   *)
+(*           on diag=True cross-covariances, whose distance is not taken   *)
+(*           from the helper of the full matrix;                           *)
+(*   "far"   x = 10^KCOffExp(s) + u, u of unit spread with separated       *)
+(*           coordinates, and MORE THAN KCMMRows ROWS on a side (KCN1 /    *)
+(*           KCN2 depend on geom): above that size torch.cdist, like       *)
+(*           sq_dist, uses the quadratic expansion |a|^2 + |b|^2 - 2ab,    *)
+(*           whose absolute error is eps |x / l|^2 of WHAT IT IS HANDED.   *)
+(*           KCCentredOK: on every path of every cell the quadratic        *)
+(*           expansion is handed centred points (by the caller: Matern     *)
+(*           kernel / Function subtract mean(x1); by the helper: sq_dist   *)
+(*           subtracts it itself, torch.cdist does not).  The denotation   *)
+(*           is translation invariant (KCMeaning: only x1 - x2 enters):    *)
+(*           the replay compares every path with the closed form           *)
+(*           evaluated on the centred points u (x - 10^e is exact in       *)
+(*           float64), at a tolerance that grows with the rounding of the  *)
+(*           points handed in (linear in 10^e / l), not with its square.   *)
 (***************************************************************************)
 EXTENDS Naturals, Sequences, FiniteSets
 
 CONSTANTS KCDims,       \* input dimensions d
           KCBatch,      \* set of <<kb, xb>>
-          KCModes, KCWraps, KCForces
+          KCModes, KCWraps, KCForces,
+          KCGeoms,      \* geometries of the input points: "unit" | "coin" | "far"
+          KCGeoBatch,   \* the <<kb, xb>> of the cells with another geometry than "unit" (subset of KCBatch)
+          KCOffsets     \* sequence of the decimal exponents of the far offsets
 
 KCFams == {"rbf", "matern05", "matern15", "matern25"}
 KCCells == [kind : {"call"}, fam : KCFams, wrap : KCWraps, ls : {"shared", "ard"}, kb : {p[1] : p \in KCBatch}, xb : {p[2] : p \in KCBatch},
-            d : KCDims, mode : KCModes, diag : BOOLEAN, ldb : BOOLEAN]
+            d : KCDims, mode : KCModes, diag : BOOLEAN, ldb : BOOLEAN, geom : KCGeoms]
+KCSameInputs(s) == s.mode \in {"same", "clone"}                           \* torch.equal(x1, x2)
 KCValid(s) == /\ <<s.kb, s.xb>> \in KCBatch
               /\ (s.diag => s.mode \in {"same", "clone", "eqn"})          \* diag=True needs n1 = n2
+              /\ (s.geom = "coin" => ~KCSameInputs(s))                    \* shared rows of two DIFFERENT tensors (equal tensors: every row coincides, geom "unit")
+              /\ (s.geom # "unit" => <<s.kb, s.xb>> \in KCGeoBatch /\ s.wrap = "plain")    \* the outputscale is a factor: no part in the geometry
 
-KCN1(s) == CASE s.mode = "gt" -> 4 [] s.mode = "lt" -> 2 [] OTHER -> 3
-KCN2(s) == 3
-KCSameInputs(s) == s.mode \in {"same", "clone"}                           \* torch.equal(x1, x2)
+\* ---- geometry ----------------------------------------------------------------------------------------
+KCMMRows == 25                                                            \* torch.cdist: quadratic expansion when either side has more rows than this
+KCN1(s) == IF s.geom = "far" THEN (CASE s.mode = "gt" -> 29 [] s.mode = "lt" -> 2 [] OTHER -> 27)
+           ELSE (CASE s.mode = "gt" -> 4 [] s.mode = "lt" -> 2 [] OTHER -> 3)
+KCN2(s) == IF s.geom = "far" THEN (CASE s.mode = "gt" -> 3 [] s.mode = "lt" -> 28 [] OTHER -> 27) ELSE 3
+\* row pairs <<i, j>> (1-based) with x1[i] = x2[j] exactly, two different tensors
+KCCoinPairs(s) == IF s.geom # "coin" THEN {}
+                  ELSE CASE s.mode = "eqn" -> {<<1, 1>>, <<3, 2>>} [] s.mode = "gt" -> {<<2, 1>>, <<4, 3>>} [] s.mode = "lt" -> {<<2, 1>>, <<1, 3>>} [] OTHER -> {}
+\* a pair that agrees in the first coordinate only (d = 1: one more shared row; the rows of each tensor stay pairwise different)
+KCCoinPartial(s) == IF s.geom # "coin" THEN {} ELSE CASE s.mode = "eqn" -> {<<2, 3>>} [] s.mode = "gt" -> {<<1, 2>>} [] s.mode = "lt" -> {<<1, 2>>} [] OTHER -> {}
+KCIdx(seq, v) == CHOOSE k \in 1..Len(seq) : seq[k] = v
+KCFamSeq == <<"rbf", "matern05", "matern15", "matern25">>
+KCModeSeq == <<"same", "clone", "eqn", "gt", "lt">>
+\* every (family, lengthscale, mode, diag, ldb, batch) meets every offset as d runs over three consecutive dimensions
+KCOffExp(s) == IF s.geom # "far" THEN 0
+               ELSE KCOffsets[1 + ((s.d + KCIdx(KCFamSeq, s.fam) + KCIdx(KCModeSeq, s.mode) + (IF s.diag THEN 1 ELSE 0) + (IF s.ldb THEN 1 ELSE 0)
+                                    + (IF s.ls = "ard" THEN 1 ELSE 0) + s.kb + s.xb) % Len(KCOffsets))]
+\* which distance helper a path uses and whether it expands |a - b|^2 = |a|^2 + |b|^2 - 2ab
+KCSquared(s) == s.fam = "rbf"
+KCHelper(s) == IF s.diag THEN (IF KCSameInputs(s) THEN "zeros" ELSE "norm of x1 - x2")
+               ELSE IF KCSquared(s) \/ KCSameInputs(s) THEN "sq_dist" ELSE "cdist"
+KCRowsSeen(s) == {KCN1(s), KCN2(s)}                                       \* also with last_dim_is_batch (d moves to the batch axes: n1 x 1 and n2 x 1 points)
+KCQuadExp(s) == KCHelper(s) = "sq_dist" \/ (KCHelper(s) = "cdist" /\ \E n \in KCRowsSeen(s) : n > KCMMRows)
+\* who subtracts mean(x1) before the expansion: the caller (MaternKernel.forward generic branch, MaternCovariance.forward), the helper (sq_dist)
+KCCentredBy(s, path) == (IF s.fam # "rbf" THEN {IF path = "fast" THEN "MaternCovariance.forward" ELSE "MaternKernel.forward"} ELSE {}) \cup (IF KCHelper(s) = "sq_dist" THEN {"sq_dist"} ELSE {})
+KCCentredOK(s) == KCQuadExp(s) => \A path \in {"fast", "generic"} : KCCentredBy(s, path) # {}
+KCGeomOK(s) ==
+  /\ KCCentredOK(s)
+  /\ (s.geom = "far" => (KCN1(s) > KCMMRows \/ KCN2(s) > KCMMRows) /\ KCOffExp(s) \in {KCOffsets[k] : k \in 1..Len(KCOffsets)})
+  /\ (s.geom = "far" /\ ~s.diag /\ ~KCSameInputs(s) /\ s.fam # "rbf" => KCQuadExp(s))            \* the far cells of two different tensors reach the expansion inside torch.cdist
+  /\ (s.geom = "coin" =>
+        /\ KCCoinPairs(s) # {} /\ KCCoinPartial(s) # {} /\ KCCoinPairs(s) \cap KCCoinPartial(s) = {}
+        /\ \A p \in KCCoinPairs(s) \cup KCCoinPartial(s) : p[1] \in 1..KCN1(s) /\ p[2] \in 1..KCN2(s)
+        /\ \E p \in KCCoinPairs(s) : p[1] # p[2]                                                  \* r = 0 off the diagonal
+        /\ (s.diag => (\E p \in KCCoinPairs(s) : p[1] = p[2]) /\ (\E i \in 1..KCN1(s) : <<i, i>> \notin KCCoinPairs(s)))   \* diag=True returns an r = 0 and an r > 0 entry
+        /\ \A p \in KCCoinPairs(s), q \in KCCoinPairs(s) : (p[1] = q[1] \/ p[2] = q[2]) => p = q)      \* rows of one tensor stay pairwise different
+  /\ (s.geom # "coin" => KCCoinPairs(s) = {} /\ KCCoinPartial(s) = {})
 
 \* ---- the dispatch predicate, every keyword -----------------------------------------------------------
 KCForcesOf(s) == {f \in KCForces : f \in {"x2grad", "x12grad"} => s.mode # "same"}        \* with x2 = None there is no second tensor to mark
@@ -118,13 +191,19 @@ KCFormula(s) == CASE s.fam = "rbf"      -> "exp(-r^2 / 2)"
                   [] s.fam = "matern15" -> "(1 + sqrt(3) r) exp(-sqrt(3) r)"
                   [] s.fam = "matern25" -> "(1 + sqrt(5) r + 5 r^2 / 3) exp(-sqrt(5) r)"
 KCParams(s) == {"raw_lengthscale"} \cup (IF s.wrap = "scale" THEN {"raw_outputscale"} ELSE {})
+\* the geometry is not part of the denotation: r depends on x1 - x2 only (translation invariance), r = 0 is the value k(0) with zero sub-gradient
 KCMeaning(s) == [formula |-> KCFormula(s), r |-> IF s.ldb THEN "per input dimension: |x1[i,k] - x2[j,k]| / l_k" ELSE "|(x1[i] - x2[j]) / l|",
                  shape |-> KCOutShape(s), params |-> KCParams(s)]
 KCOut(s) == [paths |-> [f \in KCForcesOf(s) |-> KCPath(s, f)], wants |-> [f \in KCForcesOf(s) |-> KCWants(s, f)], shape |-> KCOutShape(s), lsshape |-> KCLsShape(s), params |-> KCParams(s),
-             sound |-> KCFastSound(s)]
+             sound |-> KCFastSound(s),
+             geo |-> [n1 |-> KCN1(s), n2 |-> KCN2(s), pairs |-> KCCoinPairs(s), partial |-> KCCoinPartial(s), off |-> KCOffExp(s), helper |-> KCHelper(s), quad |-> KCQuadExp(s)]]
 
 KCCallOK(s) ==
   /\ KCValid(s)
+  /\ KCGeomOK(s)
+  /\ LET t == [s EXCEPT !.geom = "unit"]                                                         \* the geometry selects neither the branch nor the denotation
+     IN /\ KCValid(t) /\ KCForcesOf(t) = KCForcesOf(s) /\ \A f \in KCForcesOf(s) : KCPath(t, f) = KCPath(s, f)
+        /\ KCMeaning(t).formula = KCMeaning(s).formula /\ KCMeaning(t).r = KCMeaning(s).r /\ KCMeaning(t).params = KCMeaning(s).params
   /\ \A f \in KCForcesOf(s) :
        /\ (KCPath(s, f) = "fast" => KCFastSound(s) /\ ~KCFastRejects(s, f))           \* the Function is handed only what its saved derivative is right for
        /\ (f # "none" => KCPath(s, f) = "generic")                                    \* every forcing reaches the generic branch
